@@ -388,9 +388,9 @@ pub fn run(tier: Tier) -> i32 {
     if let Some(art) = crate::common::replay_artefact() {
         return crate::common::finish_replay("C13", &art, &|ws| ws.iter().map(|w| confirm_stexp(&*spec, w)).collect());
     }
-    let depth = std::env::var("VERIF_DEPTH").ok().and_then(|s| s.parse().ok()).unwrap_or(if tier.is_thorough() { 12 } else { 9 });
+    let depth = std::env::var("VERIF_DEPTH").ok().and_then(|s| s.parse().ok()).unwrap_or(if tier.is_thorough() { 11 } else { 9 }); // (depth 12 needed 44 GB once the host-mapping operation joined the alphabet)
     let out = run_stexp(Arc::clone(&spec), depth, crate::common::ncpu(), 1 << 30, if tier.is_thorough() { 1500 } else { 45 });
-    st_evidence(&mut run, &out, depth, "guest syscall brk(p) with p in {0, H, H+1, H+0x10, H+0x1000, H+0x1001, H+0x3000, K} (H = heap base = start of the heap area, K = model break; the first break lies 0x1000 above H); guest `mov [rbx],al` / `mov al,[rbx]` at {H, H+1, K-1, middle}; 4 layouts (code only, area just above the heap, area at 0x2000, area far above)");
+    st_evidence(&mut run, &out, depth, "guest syscall brk(p) with p in {0, H, H+1, H+0x10, H+0x1000, H+0x1001, H+0x2400, H+0x3000, K}, the host mapping 16 bytes at H+0x2800 once the heap exists (H = heap base = start of the heap area, K = model break; the first break lies 0x1000 above H); guest `mov [rbx],al` / `mov al,[rbx]` at {H, H+1, K-1, middle}; 4 layouts (code only, area just above the heap, area at 0x2000, area far above)");
     run.guard("states", out.states >= 20, format!("{} states", out.states));
     run.assume("brk below the heap base and accesses at or above the break are not enumerated; bytes released by a shrink are forgotten by the model");
     let spec2 = Arc::clone(&spec);
